@@ -16,6 +16,20 @@ CLAIMS = {
     text="Theorem C03_history: for every machine, callback behaviour, engine kind and history of operations, trigger ids along the callback log never decrease (each event's callbacks are one contiguous block, blocks in send order); nested sends return None and only enqueue. The executable model is compared with the real engine on generated scenarios with nested sends in every group, sync/async, rtc on/off; constant stack depth is measured on the implementation.",
     design="7 C03"),
 }
+CLAIMS.update({
+  "C01": dict(
+    technique="Lean 4 proof (candidate loop realises the declarative `choose` spec; induction on the candidate list) + model/implementation correspondence + Lean Spec monitor on implementation traces",
+    text="Theorems C01_trigger / tryCands_choose / choose_fire_first: for every machine, event (declared or not), guard valuation and validator plan, the engine fires the first transition in declaration order that is bound to the event with all cond truthy and all unless falsy and ends in its target; otherwise state unchanged and TransitionNotAllowed(event,state) or None; a raising validator aborts with the state unchanged. Proved for run-to-completion mode with guards that do not raise; rtc=False and the async engine are tied by the correspondence (same model, handler-parametrised). The `choose` spec is also evaluated (in Lean) on the implementation's own observations.",
+    design="7 C01"),
+  "C04": dict(
+    technique="Lean 4 proof (no assumption on callbacks: case analysis of the two halves of an activation; induction on the drain loop) + systematic fault enumeration against the implementation",
+    text="Theorems C04_state (failure in validators/guards/before/exit/on leaves the source, in enter/after the target, never anything else), C04_drain_error / C04_process_error (exception reaches the caller, queue emptied), C04_not_wedged / C04_send_error_usable (lock released; next send processed normally), for arbitrary callback behaviour in RTC mode. Correspondence: every generated scenario is re-run with a raising invocation injected at sampled invocation positions of every phase (first, nested, queued triggers; single and double faults), model vs implementation, plus a Spec monitor on the implementation trace.",
+    design="7 C04"),
+  "C14": dict(
+    technique="Lean 4 proof (result of an executed transition computed in closed form) + model/implementation correspondence + Spec monitor on implementation traces",
+    text="Theorems C14_result / activate_fire (an executed transition returns unwrap(applicable before results ++ applicable on results), nothing else contributes), unwrap_cases (None / the value / the list), mem_applicable (event-scoped callbacks filtered by the triggering event), C14_rejected_none, drainLoop_single (the outermost call returns it). Correspondence over 0-3 before x 0-3 on callbacks in all styles/providers with a pool of None/falsy/container return values, internal/self/multi-event transitions, both engines; return values of every callback are compared.",
+    design="7 C14"),
+})
 NOT_APPLICABLE = {}
 
 def main():
